@@ -25,6 +25,12 @@ func (p *Plenc) Marshal(data []byte, value interface{}) ([]byte, error) {
 		if typ.Kind() == reflect.Map {
 			ptr = *(*unsafe.Pointer)(ptr)
 		}
+	} else if typ.Kind() == reflect.Struct && isDirectIface(typ) {
+		// A struct passed by value is normally a pointer to a copy of the
+		// struct. But for a pointer-shaped struct the interface holds the
+		// struct's only field itself: codecs need the address of that.
+		word := ptr
+		ptr = unsafe.Pointer(&word)
 	}
 
 	c, err := p.CodecForType(typ)
@@ -55,4 +61,20 @@ func (p *Plenc) Unmarshal(data []byte, value interface{}) error {
 
 	_, err = c.Read(data, unsafe.Pointer(rv.Pointer()), c.WireType())
 	return err
+}
+
+// isDirectIface reports whether an interface holds values of this type
+// directly rather than via a pointer. This is true of pointer-shaped types:
+// pointers, maps, channels, functions, and structs and arrays with exactly one
+// such element.
+func isDirectIface(typ reflect.Type) bool {
+	switch typ.Kind() {
+	case reflect.Ptr, reflect.Map, reflect.Chan, reflect.Func, reflect.UnsafePointer:
+		return true
+	case reflect.Struct:
+		return typ.NumField() == 1 && isDirectIface(typ.Field(0).Type)
+	case reflect.Array:
+		return typ.Len() == 1 && isDirectIface(typ.Elem())
+	}
+	return false
 }
